@@ -194,4 +194,14 @@ def main(argv: List[str]) -> int:
 
 
 if __name__ == "__main__":
-    sys.exit(main(sys.argv[1:]))
+    try:
+        rc = main(sys.argv[1:])
+    except SystemExit:
+        raise
+    except BaseException as e:  # a crash of the harness is never a verdict
+        import traceback
+
+        traceback.print_exc()
+        print(f"INCONCLUSIVE reason=harness_crash:{type(e).__name__}:{str(e)[:300]}")
+        rc = 3
+    sys.exit(rc)
